@@ -569,6 +569,8 @@ class BitStream(ConstBitStream, bitstring.BitArray):
         if self._bitstore.immutable:
             self._bitstore = self._bitstore._copy()
             self._bitstore.immutable = False
+        # A mutable bitstring is no longer tied to the file it was created from.
+        self._filename = None
 
     def __copy__(self) -> BitStream:
         """Return a new copy of the BitStream."""
